@@ -603,6 +603,9 @@ func (s *sim) finish() {
 }
 
 func run(t *testing.T, sc Scenario) *core.Result {
+	if sc.Conc != nil {
+		return runConc(t, sc)
+	}
 	res := core.NewResult()
 	for _, k := range []string{"seq_wrap_crossed", "reorder_buffer_flush", "reorder_gap_filled", "restart_followed", "restart_detected_backward",
 		"stale_run_taken_as_restart", "report_captured", "report_with_loss", "report_after_wrap", "displaced_delivered", "o2_literal_miss", "restart_unclean", "default_buffer"} {
